@@ -138,8 +138,8 @@ pub fn pick_vtree(rng: &mut Rng, n: usize) -> (VTree, &'static str) {
 
 // ---------------------------------------------------------------- session
 
-const OPS: [&str; 15] = [
-    "var", "neg", "and", "or", "xor", "iff", "ite", "cond", "exists", "compose", "cnf", "eq", "wmc", "semhash", "pred",
+const OPS: [&str; 17] = [
+    "var", "neg", "and", "or", "xor", "iff", "ite", "cond", "exists", "compose", "cnf", "eq", "wmc", "semhash", "pred", "expr", "plan",
 ];
 
 fn weights(mode: &str) -> [usize; 15] {
@@ -240,7 +240,8 @@ impl<'a, B: SddBuilder<'a>> Session<'a, B> {
     }
 
     fn step(&mut self, rng: &mut Rng, mode: &str, out: &mut Out, sem_hash: &dyn Fn(SddPtr<'a>) -> u128) -> bool {
-        let w = weights(mode);
+        let mut w = weights(mode).to_vec();
+        w.extend(if mode == "c05" { [6usize, 6] } else { [0, 0] }); // expr, plan (BottomUpBuilder defaults, also on SDD builders)
         let mut op = OPS[rng.weighted(&w)];
         let seeding = self.next_slot < self.nv.min(K - 2) && self.next_slot < 6;
         if seeding {
@@ -330,6 +331,37 @@ impl<'a, B: SddBuilder<'a>> Session<'a, B> {
                 let cnf = Cnf::new(&cl);
                 Some(guarded(|| b.compile_cnf(&cnf)))
             }
+            "expr" => {
+                let (j, e) = crate::bdd_rec::rand_expr(rng, nv, 3);
+                ev["expr"] = j;
+                Some(guarded(|| b.compile_logical_expr(&e)))
+            }
+            "plan" => {
+                use rsdd::plan::BottomUpPlan;
+                use rsdd::repr::{DTree, VarOrder};
+                if rng.coin() {
+                    // plan derived from a dtree of a random CNF with at least one clause
+                    let mut c = rand_clauses(rng, nv, 6, 4);
+                    c.retain(|cl| !cl.is_empty());
+                    if c.is_empty() {
+                        c.push(vec![(rng.below(nv), rng.coin())]);
+                    }
+                    let cnf = crate::bdd_rec::mk_cnf(&c);
+                    let elim: Vec<VarLabel> = rng.perm(cnf.num_vars()).into_iter().map(vl).collect();
+                    match guarded(|| BottomUpPlan::from_dtree(&DTree::from_cnf(&cnf, &VarOrder::new(&elim)))) {
+                        Ok(plan) => {
+                            ev["expr"] = crate::bdd_rec::plan_json(&plan);
+                            ev["cnf"] = crate::bdd_rec::lits_json(&c);
+                            Some(guarded(|| b.compile_plan(&plan)))
+                        }
+                        Err(m) => Some(Err(m)),
+                    }
+                } else {
+                    let plan = crate::bdd_rec::rand_plan(rng, nv, 3);
+                    ev["expr"] = crate::bdd_rec::plan_json(&plan);
+                    Some(guarded(|| b.compile_plan(&plan)))
+                }
+            }
             _ => None,
         };
         if let Some(r) = produced {
@@ -348,7 +380,7 @@ impl<'a, B: SddBuilder<'a>> Session<'a, B> {
                         ev["hash"] = json!(limbs(sem_hash(ptr)));
                     }
                     if let Some((vt, compress)) = &self.cold {
-                        if !matches!(op, "var" | "cnf") {
+                        if !matches!(op, "var" | "cnf" | "expr" | "plan") {
                             // C16: the caches of this long-lived builder must not have changed the result
                             let before: Vec<SddPtr> = { let mut q = self.pool.clone(); q[res_slot] = old_in_slot; q };
                             match cold_twin(vt, *compress, op, &ev, &before) {
